@@ -29,6 +29,7 @@ MOLS = {
     "mix": dict(batch=["h2o", "h2"]),
     "mix3": dict(batch=["ch4", "h2o", "hf"]),
     "mixb": dict(batch=["nh3", "hf"]),
+    "mixc": dict(batch=["h2o", "hf"]),
     "ch3": dict(batch=["ch3"], mult=2),
     "oh-": dict(batch=["oh"], charges=-1),
     "c2h4": dict(batch=["c2h4"]),
@@ -98,6 +99,7 @@ JOBS = {
     "md_basic_nh3_ang": dict(fam="am1_md", mol="nh3", kind="md", eng="basic", remove_com=["angular", 2]),
     "md_lang_mix3b": dict(fam="am1_md", mol="mixb", kind="md", eng="langevin"),
     "md_xl_nh3": dict(fam="am1_md", mol="nh3", kind="md", eng="xl"),
+    "md_lang_mixc": dict(fam="am1_md", mol="mixc", kind="md", eng="langevin"),
     "opt_h2o": dict(fam="am1_md", mol="h2o", kind="opt"),
     "opt_nh3": dict(fam="am1_md", mol="nh3", kind="opt"),
     "fail_odd_rhf": dict(fam="am1", mol="ch3", kind="sp", nomult=True, expect_fail=True),
